@@ -1086,6 +1086,13 @@ func guardedBy(fn *ssa.Function, cut EdgeSet, target func(ssa.Instruction) bool)
 // that v is the guard value itself (isGuard). useBlock is the block in which v
 // is consumed (for constants).
 func boolImplies(fn *ssa.Function, v ssa.Value, useBlock *ssa.BasicBlock, isGuard VM, g EdgeSet) (bool, string) {
+	return boolImpliesX(fn, v, useBlock, true, isGuard, nil, g)
+}
+
+// boolImpliesX: v having the truth value `when` implies that a guard edge in g was taken, or that v is a
+// value whose being true (guardIfTrue) / false (guardIfFalse) is the guard itself.
+func boolImpliesX(fn *ssa.Function, v ssa.Value, useBlock *ssa.BasicBlock, when bool, guardIfTrue, guardIfFalse VM, g EdgeSet) (bool, string) {
+	isGuard := guardIfTrue
 	seen := map[ssa.Value]bool{}
 	var rec func(v ssa.Value, blk *ssa.BasicBlock) (bool, string)
 	var recFalse func(v ssa.Value, blk *ssa.BasicBlock, depth int) (bool, string)
@@ -1165,6 +1172,9 @@ func boolImplies(fn *ssa.Function, v ssa.Value, useBlock *ssa.BasicBlock, isGuar
 			}
 			return false, fmt.Sprintf("constant false reaches block %d without passing the guard", blk.Index)
 		}
+		if guardIfFalse != nil && guardIfFalse(v) {
+			return true, ""
+		}
 		switch x := v.(type) {
 		case *ssa.UnOp:
 			if x.Op == token.NOT {
@@ -1186,6 +1196,9 @@ func boolImplies(fn *ssa.Function, v ssa.Value, useBlock *ssa.BasicBlock, isGuar
 			return true, ""
 		}
 		return false, fmt.Sprintf("value %s can be false without the guard", vstr(v))
+	}
+	if !when {
+		return recFalse(v, useBlock, 0)
 	}
 	return rec(v, useBlock)
 }
